@@ -52,6 +52,32 @@ theorem exec_total (g : GEnv) (name : Bytes) (data : Frame) (fuel : Nat)
   | fuelOut => exact Or.inr (Or.inr rfl)
   | panic => exact absurd hc h
 
+/-- the API contract in one statement: `Execute` returns normally — with output (`ok`), with an error value
+    (`err`), or it exceeds the call depth the fuel stands for (`fuelOut`; Go: the goroutine stack, excluded by
+    the property's "recursion bounded by the data") — and the ONLY way a panic can leave it is the recover
+    handler slicing the entry template's source at a node position outside that source (`¬ posOk`).
+
+    `posOk` for registries built from parser output: every position the parser assigns is the position of
+    a consumed token (or an offset inside a consumed token's text), and every lexer item lies inside the
+    input (Props/C05 `lex_items`).  What the parser theorems (Props/C05parse) state today are the positions
+    of ERRORS (`parse_err_at_token`) — not yet the invariant "every node of a successfully built tree
+    carries the position of a consumed item"; that invariant would have to be threaded through all
+    functions of Model/FileParser.lean and Model/Parser.lean to give `posOk_of_parsed`.  Until then
+    `posOk` is CHECKED, not proved, for parser output: the exec correspondences attach the real source
+    text to every generated bundle, and the model would answer PANIC on any failing render of a template
+    with a node outside its text (0 such answers in all runs). -/
+theorem execute_contract (g : GEnv) (name : Bytes) (data : Frame) (fuel : Nat) :
+    ((execute g name data fuel).cls = .ok ∨ (execute g name data fuel).cls = .err ∨
+      (execute g name data fuel).cls = .fuelOut ∨
+      ((execute g name data fuel).cls = .panic ∧ ∃ t, Registry.lookup g.reg name = some t ∧ posOk t = false)) ∧
+    ((∀ t, Registry.lookup g.reg name = some t → posOk t = true) → (execute g name data fuel).cls ≠ .panic) := by
+  refine ⟨?_, exec_no_panic g name data fuel⟩
+  cases hc : (execute g name data fuel).cls with
+  | ok => exact Or.inl rfl
+  | err => exact Or.inr (Or.inl rfl)
+  | fuelOut => exact Or.inr (Or.inr (Or.inl rfl))
+  | panic => exact Or.inr (Or.inr (Or.inr ⟨rfl, exec_panic_needs_bad_position g name data fuel hc⟩))
+
 /-- inside the walk nothing panics at all: every template invocation, from any state whose top frame is
     an own frame, ends ok / err / fuelOut — positions play no role below the entry point -/
 theorem walk_no_panic (g : GEnv) (fuel : Nat) (t : Registry.Tmpl) (ctx : Scope) (st : St) (h : Own ctx st) :
@@ -119,5 +145,7 @@ def tRec : Registry.Tmpl :=
   { tUndef with name := [114], body := .mk 0 (.cons (.call 1 [114] false none .nil) .nil) }
 example : (execute (gEmpty [tRec]) [114] [] 2).cls = .fuelOut := by decide
 example : (execute (gEmpty [tRec]) [120] [] 2).cls = .err := by decide   -- template not found
+/-- the four disjuncts of `execute_contract` are all inhabited: ok here, err / panic / fuelOut above -/
+example : (execute (gEmpty [{ tUndef with body := .mk 0 .nil }]) [116] [] 2).cls = .ok := by decide
 
 end SoyVerif.Props.C06
